@@ -53,6 +53,11 @@ class ConcRunner:
         self.disk = base.disk
         for op in cfg.get('init', []):
             self.api.call(base, op['op'], dict(op.get('a', {})), op.get('form', 0))
+        if self.kind == 'index' and cfg.get('init_pairs'):
+            from .indexdriver import PYKEYS
+            ix = diskcache.Index.fromcache(base)
+            for k, v in cfg['init_pairs']:
+                ix[PYKEYS[k]] = self.vm.to_py(v)
         if self.kind == 'deque' and cfg.get('init_items'):
             dq = diskcache.Deque.fromcache(base)
             dq.extend([self.vm.to_py(v) for v in cfg['init_items']])
@@ -66,6 +71,13 @@ class ConcRunner:
             self.shared = self.make_handle()
         self.caches = {}
         self.nreal = max(program)
+
+    def ixkey(self, mk):
+        from .indexdriver import kid
+        try:
+            return kid(self.km.to_py(mk))
+        except Exception:
+            return -1
 
     def make_handle(self):
         if self.kind == 'deque':
@@ -115,7 +127,8 @@ class ConcRunner:
             rows.append([mk, mv, exp_model(exp), tag_model(tag), size, fid])
         st = dict(raw('SELECT key, value FROM Settings').fetchall())
         return {'rows': rows, 'ctr': [st['count'], st['size'], st['hits'], st['misses']],
-                'items': [r[1] for r in sorted(rows, key=lambda r: r[0])]}
+                'items': [r[1] for r in sorted(rows, key=lambda r: r[0])],
+                'pairs': [[self.ixkey(r[0]), r[1]] for r in rows]}
 
     def listing(self):
         files = []
@@ -295,7 +308,7 @@ class ConcRunner:
             return {'init': {'policy': self.cfg['policy'], 'cull': self.cfg['cull'],
                              'limit': self.cfg['limit'], 'stats': 1 if self.cfg['stats'] else 0,
                              'rows': init['rows'], 'ctr': init['ctr'], 'files': init['files'],
-                             'items': init['items'], 'maxlen': self.cfg.get('maxlen', -1),
+                             'items': init['items'], 'maxlen': self.cfg.get('maxlen', -1), 'pairs': init['pairs'],
                              'shared': 1 if self.cfg.get('shared') else 0,
                              'faulty': 1 if self.cfg.get('faulty') else 0,
                              'sharded': 1 if self.kind in ('fanout', 'django') else 0},
